@@ -177,6 +177,7 @@ func (e *Exec) runPath(fn *ssa.Function, prefix []bool) {
 	arrIDs = map[*Cell]int{}
 	onceDone = map[*Cell]bool{}
 	mutexHeld = map[*Cell]bool{}
+	mutexWaiters = map[*Cell]int{}
 	builders = map[*Cell]string{}
 	globals = map[*ssa.Global]*Cell{}
 	cellOwner = map[*Cell]*ssa.Global{}
@@ -1909,6 +1910,7 @@ func resetWorld() {
 	arrIDs = map[*Cell]int{}
 	onceDone = map[*Cell]bool{}
 	mutexHeld = map[*Cell]bool{}
+	mutexWaiters = map[*Cell]int{}
 	builders = map[*Cell]string{}
 	errCounter = 0
 }
